@@ -448,15 +448,24 @@ func (c *client) findClients(ctx context.Context, batch []hrpc.Call, res []hrpc.
 	// regions were merged, say). Sent as they are, the earlier call would be
 	// refused and retried after the later ones: two writes to the same row
 	// would be applied in the wrong order. Locate the batch once more then,
-	// so that all its calls see the same regions.
+	// so that all its calls see the same regions. Regions may be replaced
+	// again meanwhile (other lookups go on concurrently): repeat until a
+	// pass ends with live regions only, a bounded number of times.
+	for i := 0; ok && i < maxFindRegionTries && hasDeadRegion(rpcByClient); i++ {
+		rpcByClient, ok = c.findClientsOnce(ctx, batch, res)
+	}
+	return rpcByClient, ok
+}
+
+func hasDeadRegion(rpcByClient map[hrpc.RegionClient][]hrpc.Call) bool {
 	for _, rpcs := range rpcByClient {
 		for _, rpc := range rpcs {
 			if rpc.Region().Context().Err() != nil {
-				return c.findClientsOnce(ctx, batch, res)
+				return true
 			}
 		}
 	}
-	return rpcByClient, ok
+	return false
 }
 
 func (c *client) findClientsOnce(ctx context.Context, batch []hrpc.Call, res []hrpc.RPCResult) (
